@@ -173,7 +173,10 @@ fn gen_srv(rng: &mut Rng, out: &mut Vec<String>) {
 
 fn gen_tx(rng: &mut Rng, out: &mut Vec<String>) {
     let bs = *rng.pick(&[8196usize, 8196, 9000]);
-    out.push(format!("reset tx {} 0 {} {} {} 1", bs, *rng.pick(&[0usize, 5]), 1 + rng.below(3), rng.below(100)));
+    // max_chunk_count 1 and 2: a two- or three-chunk request is REJECTED (BadCommunicationError) and must not
+    // use up sequence numbers — the next accepted request continues the numbering (seed C12c)
+    let mc = *rng.pick(&[0usize, 5, 1, 2]);
+    out.push(format!("reset tx {} 0 {} {} {} 1", bs, mc, 1 + rng.below(3), rng.below(100)));
     if rng.chance(1, 3) {
         let a = *rng.pick(&[1000u64, u32::MAX as u64 - 1, u32::MAX as u64 - 2, u32::MAX as u64]);
         let b = *rng.pick(&[0u64, 5, u32::MAX as u64 - 1, u32::MAX as u64 - 2, u32::MAX as u64 - 3, u32::MAX as u64]);
@@ -182,7 +185,7 @@ fn gen_tx(rng: &mut Rng, out: &mut Vec<String>) {
     for _ in 0..rng.range(1, 8) {
         match rng.weighted(&[6, 3, 2]) {
             0 => {
-                let m = if rng.chance(1, 8) {
+                let m = if rng.chance(1, if mc == 1 || mc == 2 { 3 } else { 8 }) {
                     let cap = bs - 24;
                     let t = *rng.pick(&[cap + 1, 2 * cap + 1]);
                     c11::read_request_padded(rng, 1, Some(t))
